@@ -14,8 +14,7 @@ pattern,outfile=sys.argv[1],sys.argv[2]
 tier=sys.argv[3] if len(sys.argv)>3 else 'quick'
 res=json.load(open(outfile)) if os.path.exists(outfile) else {}
 for d in sorted(glob.glob(pattern)):
-    m=re.search(r'(C\d\d)/?([ab])$',d.replace('seed-','').replace('-','')) or re.search(r'(C\d\d)([ab])$',os.path.basename(d))
-    prop,x=m.group(1),m.group(2)
+    prop,x=re.search(r'C\d\d',d).group(0),d.rstrip('/')[-1]
     sid=prop+x
     patch=os.path.join(d,'ported.diff') if os.path.exists(os.path.join(d,'ported.diff')) else os.path.join(d,'patch.diff')
     wt=f'/var/tmp/seedrun-{sid}'
